@@ -1,6 +1,6 @@
 (* C03 — the custom unparser round-trips every expression tree. *)
 From Coq Require Import String List ZArith Bool Arith.
-From OL Require Import PyAst Unparse Namespace Lower Parse ParseProof ParseTie LowerCore.
+From OL Require Import PyAst Unparse Namespace Lower Parse ParseProof ParseTie LowerCore StmtOk StmtCore.
 From OLGen Require Import Tables.
 Import ListNotations.
 Local Open Scope string_scope.
@@ -48,6 +48,15 @@ Theorem C03_scope_rewriting_keeps_core : forall (n : nsp) e bd inn e', core_top 
   core_top e' = true.
 Proof. exact transf_keeps_core_top. Qed.
 Print Assumptions C03_scope_rewriting_keeps_core.
+
+(* ... and the STATEMENT layer (Lower.lower_stmt / lower_block / lower_module, the model of pending_nodes.py): every expression
+   emitted for a statement of the fragment - loops as comprehensions over takewhile / iterator wrappers, flags and guards,
+   destructuring through temporaries and slices, augmented assignments, imports, functions as lambdas over a list display,
+   classes through a loader and setattr - is in the core, hence so is the ONE expression a whole program becomes. *)
+Theorem C03_statement_layer_keeps_core : forall cfg root body e,
+  forallb stmt_ok body = true -> lower_module cfg root body = inl e -> core_top e = true.
+Proof. exact lower_module_core_top. Qed.
+Print Assumptions C03_statement_layer_keeps_core.
 
 (* the table facts the proof rests on, each a finite check over the regenerated table (a changed precedence or slot
    breaks one of them): an operand printed bare in a slot is followed by a token that does not continue it *)
